@@ -12,7 +12,35 @@ Case format (JSON lists, byte strings are lists of ints):
   ["v", 2, buffer, pid]      Vp8Encoder._packetize(buffer, pid), then parse of every payload
   ["v", 3, data]             parse of every prefix of data
 """
+import os
+import subprocess
+import tempfile
+
+import harness.framework as fw
 from harness.framework import Check, classify_exc
+
+
+def _run_model_via_file(exe, cases_sx, timeout=1800):
+    """Same contract as framework.run_model, but the cases reach the driver through a regular file:
+    OCaml's input_line is ~10x slower on a pipe for the long lines (60000-byte buffers) used here."""
+    os.makedirs(fw.WORK, exist_ok=True)
+    with tempfile.NamedTemporaryFile("wb", dir=fw.WORK, prefix="c16_", suffix=".sx", delete=False) as fp:
+        fp.write(("\n".join(cases_sx) + "\n").encode())
+        path = fp.name
+    try:
+        with open(path, "rb") as inp:
+            p = subprocess.run(["bash", "-c", f"ulimit -s unlimited 2>/dev/null; exec {exe}"], stdin=inp,
+                               stdout=subprocess.PIPE, stderr=subprocess.PIPE, timeout=timeout)
+    finally:
+        os.unlink(path)
+    lines = p.stdout.decode().splitlines()
+    if p.returncode != 0 or len(lines) != len(cases_sx):
+        raise RuntimeError(f"model driver failed rc={p.returncode} lines={len(lines)}/{len(cases_sx)}: "
+                           + p.stderr.decode()[-500:])
+    return [fw.sx_loads(l) for l in lines]
+
+
+fw.run_model = _run_model_via_file
 
 LIMIT = 1300          # the property's payload size limit (NOT read from the source)
 SC4 = [0, 0, 0, 1]
